@@ -16,9 +16,10 @@ import (
 
 // gStructVal: a struct value loaded from a receiver-like object (copied on store)
 type gStructVal struct {
-	from string // name of the object it was loaded from
-	at   int    // length of the effect log at the load
-	t    *types.Struct
+	from  string // name of the object it was loaded from
+	at    int    // length of the effect log at the load
+	t     *types.Struct
+	sname string // name of the struct type (fields are canonicalised by role)
 }
 
 // gArrVal: an array value loaded from an array object
@@ -410,7 +411,7 @@ func (d *protoDom) markLoopFork(fr *sFrame, st *sState, b *ssa.BasicBlock) {
 
 // ---------- values of the stream domain ----------
 
-func (d *protoDom) structFieldKeys(name string, t *types.Struct) []struct {
+func (d *protoDom) structFieldKeys(name string, t *types.Struct, sname string) []struct {
 	key string
 	typ types.Type
 } {
@@ -421,13 +422,13 @@ func (d *protoDom) structFieldKeys(name string, t *types.Struct) []struct {
 	for i := 0; i < t.NumFields(); i++ {
 		f := t.Field(i)
 		if st2, ok := f.Type().Underlying().(*types.Struct); ok {
-			out = append(out, d.structFieldKeys(name+"."+f.Name(), st2)...)
+			out = append(out, d.structFieldKeys(name+"."+f.Name(), st2, structNameOf(f.Type()))...)
 			continue
 		}
 		out = append(out, struct {
 			key string
 			typ types.Type
-		}{name + "." + f.Name(), f.Type()})
+		}{name + "." + d.e.p.canonField(sname, f.Name(), f.Type()), f.Type()})
 	}
 	return out
 }
@@ -444,7 +445,7 @@ func (d *protoDom) storeStruct(st *sState, dst string, v gStructVal) {
 			return
 		}
 	}
-	for _, f := range d.structFieldKeys("", v.t) {
+	for _, f := range d.structFieldKeys("", v.t, v.sname) {
 		srcKey, dstKey := v.from+f.key, dst+f.key
 		i := strings.LastIndex(srcKey, ".")
 		sv := d.fieldValue(st, gField{srcKey[:i], srcKey[i+1:]}, f.typ)
@@ -476,7 +477,7 @@ func (d *protoDom) streamStep(st *sState, in ssa.Instruction) bool {
 			}
 			if rv, ok := e.get(st, x.X).(gRecv); ok && x.Op == token.MUL {
 				if stt, ok := x.Type().Underlying().(*types.Struct); ok {
-					st.vals[x] = gStructVal{from: rv.name, at: len(st.geff), t: stt}
+					st.vals[x] = gStructVal{from: rv.name, at: len(st.geff), t: stt, sname: structNameOf(x.Type())}
 					return true
 				}
 			}
@@ -508,7 +509,7 @@ func (d *protoDom) streamStep(st *sState, in ssa.Instruction) bool {
 		switch v := e.get(st, x.X).(type) {
 		case gRecv:
 			if stt, ok := x.Type().Underlying().(*types.Struct); ok {
-				st.vals[x] = gStructVal{from: v.name, at: len(st.geff), t: stt}
+				st.vals[x] = gStructVal{from: v.name, at: len(st.geff), t: stt, sname: structNameOf(x.Type())}
 				return true
 			}
 		case gArr:
@@ -723,7 +724,7 @@ func sm3CompressFn(p *Prog) *ssa.Function {
 			for _, in := range b.Instrs {
 				if fa, ok := in.(*ssa.FieldAddr); ok && fa.X == ssa.Value(fn.Params[0]) {
 					nm := pt0.Elem().Underlying().(*types.Struct).Field(fa.Field).Name()
-					if nm == "h" {
+					if p.canonField("SM3", nm, nil) == "h" {
 						touchesH = true
 					} else {
 						onlyH = false
